@@ -1269,6 +1269,14 @@ func hlDocs(words, seps3, seps2 []string) []interface{} {
 	return docs
 }
 
+func hlNames(hls []hl) []string {
+	var o []string
+	for _, h := range hls {
+		o = append(o, fmt.Sprintf("%s(formatter %s, fragment size %d; 0 = default 200)", h.name, h.formatter, h.size))
+	}
+	return o
+}
+
 func docID(i int) string { return fmt.Sprintf("d%05d", i) }
 
 var hlDefineOnce sync.Once
@@ -1325,9 +1333,13 @@ func storedValues(v interface{}) []string {
 func (c *ctx) phaseSearch(analyzers []hlAnalyzer, engines []bx.Engine, words, seps3, seps2 []string, hls, hls2 []hl, extraEngine map[string]bool) {
 	r := c.r
 	docs := hlDocs(words, seps3, seps2)
+	var anNames []string
+	for _, a := range analyzers {
+		anNames = append(anNames, a.name)
+	}
 	qs := hlQueries()
 	r.Note("highlight_search_family", map[string]any{"documents": len(docs), "words": fmt.Sprintf("%q", words), "separators_3_word_texts": fmt.Sprintf("%q", seps3), "separators_2_word_texts": fmt.Sprintf("%q", seps2),
-		"queries": len(qs), "highlighters": hls, "highlighters_on_second_engine": hls2, "analyzers": len(analyzers)})
+		"queries": len(qs), "highlighters": hlNames(hls), "highlighters_on_second_engine": hlNames(hls2), "analyzers": anNames})
 	type item struct {
 		a   hlAnalyzer
 		eng bx.Engine
@@ -1521,11 +1533,6 @@ func (c *ctx) phaseSearch(analyzers []hlAnalyzer, engines []bx.Engine, words, se
 								}
 							}
 						}
-						if len(frags) > 1 && q.fields == nil {
-							c.coll.add("highlight:more-fragments-than-requested:"+h.formatter, okey{len(values[0]), k, qi*100 + hi}, "", func() (string, any) {
-								return fmt.Sprintf("%d fragments for one field although Search asks for 1: %q", len(frags), frags), replayOf(q, h, hit.Fields["t"])
-							})
-						}
 						nm := 0
 						for _, f := range frags {
 							cause, detail, m := checkFragment(f, mk, values, locs, app, termPreserving)
@@ -1593,7 +1600,7 @@ func Run(r *mc.Run) {
 		maxLen = map[string]int{"analyzer": 4, "tokenizer": 5, "token_filter": 4, "char_filter": 5}
 		drivers = []string{"unicode", "whitespace", "single", "web"}
 	}
-	r.Sample(map[string]any{"phase": "A", "component": "token_filter reverse on tokenizer unicode", "input": "a\xc3é", "oracle": "no panic"})
+	r.Sample(map[string]any{"phase": "A", "component": "token_filter reverse on tokenizer unicode", "input_go": strconv.Quote("a\xc3é"), "oracle": "no panic"})
 	r.Sample(map[string]any{"phase": "A", "component": "tokenizer exception{exceptions:[a-B,[0-9]'],tokenizer:unicode}", "input": "1'日", "oracle": "0≤Start≤End≤5, starts and positions non-decreasing, positions ≥ 1"})
 	t0 := time.Now()
 	phaseWall := map[string]float64{}
@@ -1602,7 +1609,7 @@ func Run(r *mc.Run) {
 	r.Note("observed_not_asserted:inputs_with_filter_or_analyzer_token_offsets_outside_input", c.observed)
 
 	// phase B
-	r.Sample(map[string]any{"phase": "B", "highlighter": "simple fragmenter size 2 + html formatter", "stored_value": "é\xff", "term_locations": "[{1 4}]", "oracle": "no panic"})
+	r.Sample(map[string]any{"phase": "B", "highlighter": "simple fragmenter size 2 + html formatter", "stored_value_go": strconv.Quote("é\xff"), "term_locations": "[{1 4}]", "oracle": "no panic"})
 	if !r.Expired() {
 		t1 := time.Now()
 		c.phaseDirect(mc.Pick(r, 2, 3), mc.Pick(r, 3, 4))
